@@ -2,5 +2,7 @@ SPECIFICATION Spec
 CONSTANTS
   MaxMembers = 4
   MaxLen = 8
+  MaxExtra = 3
+  Deep = 5
 INVARIANTS RuleSane HugeSane EmitCase
 CHECK_DEADLOCK FALSE
